@@ -19,7 +19,7 @@ from ..model import dtypes as DT
 
 LEVEL = "exploration"
 EXHAUSTIVE = True
-TECHNIQUE = "runtime monitoring: complete enumeration of (dtype, category, carrier) triples against an independent dtype oracle (NumPy scalar hierarchy, ml_dtypes finfo/iinfo, jax.dtypes), carriers NumPy / JAX concrete+jit+vmap+eval_shape tracers+keys / TensorFlow / duck objects with str and torch/mlx-style dtypes; the same table asked inside contexts / decorated bodies against shared annotation objects with temporaries, after hostile PyTree activity, and for annotations built while checking was switched off"
+TECHNIQUE = "runtime monitoring: complete enumeration of (dtype, category, carrier) triples against an independent dtype oracle (NumPy scalar hierarchy, ml_dtypes finfo/iinfo, jax.dtypes), carriers NumPy / JAX concrete+jit+vmap+eval_shape tracers+keys / TensorFlow / duck objects with str and torch/mlx-style dtypes; the same table asked inside contexts / decorated bodies against shared annotation objects with temporaries, after hostile PyTree activity, and for annotations built while checking was switched off; duck arrays whose dtype is a str subclass, a str-valued Enum member or numpy.str_"
 LEVEL_TEXT = (
     "The space is finite and is enumerated completely on this platform: all NumPy scalar types incl. platform aliases, all "
     "ml_dtypes types, all JAX dtypes with x64 on, PRNG keys of every registered implementation, structured dtypes, every "
